@@ -473,6 +473,81 @@ var justifiedORD = map[string]ordJust{
 			if !usesOwn {
 				return false, "fetchPkgUnions no longer takes its candidates from the visited package's own scope"
 			}
+			// (4) the per-package merge is idempotent: every store into a table declared outside the walker is
+			// `T[k] = v` with k, v the key and value of an enclosing range (a package may be visited several times)
+			var walker *ast.FuncLit
+			ast.Inspect(c.fd.Body, func(n ast.Node) bool {
+				if fl, ok := n.(*ast.FuncLit); ok && fl.Body.Pos() <= rs.Pos() && rs.End() <= fl.Body.End() {
+					walker = fl
+				}
+				return true
+			})
+			if walker == nil {
+				return false, "the import loop is not inside a walker closure any more"
+			}
+			why := ""
+			var ranges []*ast.RangeStmt
+			var visit func(n ast.Node) bool
+			visit = func(n ast.Node) bool {
+				switch v := n.(type) {
+				case *ast.RangeStmt:
+					ranges = append(ranges, v)
+					ast.Inspect(v.Body, visit)
+					ranges = ranges[:len(ranges)-1]
+					return false
+				case *ast.AssignStmt:
+					for i, l := range v.Lhs {
+						ix, ok := ast.Unparen(l).(*ast.IndexExpr)
+						if !ok {
+							continue
+						}
+						root := rootIdent(ix.X)
+						if root == nil {
+							continue
+						}
+						o := objOf(c.info, root)
+						if o == nil || (o.Pos() >= walker.Pos() && o.Pos() <= walker.End()) {
+							continue // a table local to the walker
+						}
+						plain := false
+						if len(v.Rhs) == len(v.Lhs) && v.Tok == token.ASSIGN {
+							for _, r := range ranges {
+								if k, val := identOf(r.Key), identOf(r.Value); k != nil && val != nil && es(ix.Index) == k.Name && es(v.Rhs[i]) == val.Name {
+									plain = true
+								}
+							}
+						}
+						if !plain {
+							why = "the merge `" + es(l) + " = " + es(v.Rhs[0]) + "` is not a plain store of a range key/value pair: a package reached through several import chains is merged several times, so an accumulating merge duplicates its entries (and the number of visits depends on the import graph)"
+						}
+					}
+				case *ast.ReturnStmt:
+					// (5) an early return is only allowed under a visited-set keyed by the package's identity
+					okRet := false
+					for _, pc := range pathConds(c.fd, v) {
+						if pc.expr == nil {
+							continue
+						}
+						ast.Inspect(pc.expr, func(y ast.Node) bool {
+							if ix, ok := y.(*ast.IndexExpr); ok {
+								k := pkgStringKind(c.info, ix.Index)
+								if k == "path" || k == "obj" {
+									okRet = true
+								}
+							}
+							return true
+						})
+					}
+					if !okRet && v.Pos() < rs.Pos() {
+						why = "the walker returns early at " + c.w.Pos(v.Pos()) + " under a condition that is not a visited-set keyed by the package's identity: which packages are scanned then depends on the order of the Imports map"
+					}
+				}
+				return true
+			}
+			ast.Inspect(walker.Body, visit)
+			if why != "" {
+				return false, why
+			}
 			return true, ""
 		},
 	},
